@@ -31,4 +31,8 @@ CASES = [
      "edits": [(C, "                    if x != y and not (isinstance(x, sym.Symbol) or isinstance(y, sym.Expr)):", "                    if False:")]},
     {"id": "twin-range-and-form", "expect": "silent",
      "edits": [(C, "        return self.x - self.atol <= item <= self.y + self.atol", "        return (self.x - self.atol <= item) and (item <= self.y + self.atol)")]},
+    {"id": "xunitary-idler-commands-shallow-copied", "expect": "fire", "key": "C12.shallow-copy",
+     "edits": [("compilers/xunitary.py", "        U2 = copy.deepcopy(U1)\n", "        U2 = copy.copy(U1)\n")]},
+    {"id": "xcov-idler-commands-list-copied", "expect": "fire", "key": "C12.shallow-copy",
+     "edits": [("compilers/xcov.py", "        U2 = copy.deepcopy(U1)\n", "        U2 = list(U1)\n")]},
 ]
